@@ -6,6 +6,8 @@ HIST_RULE = ("seeded operation histories (case idx -> PRNG seed) over engineered
              "operations and crossed at least one growth step (maps) / has >= 10 operations (stacks)")
 
 ENGINE_KINDS = {
+    "total": "hostile inputs (arbitrary card trees through the JSON/YAML loaders, size-limit modules, hostile well-scoped programs under tiny stacks/heaps/budgets) under crash, panic, abort, native-stack-overflow and hang monitors in isolated workers",
+    "resolve": "generated module trees with same-named functions, imports (function, module, super.) valid and invalid; every function logs a unique tag; reference resolver + reference interpreter decide which bodies must run and which modules must be rejected",
     "prog": "generated well-scoped card programs run in the real VM and in an independent tree-walking reference interpreter; final globals, host-call log and result kind compared",
     "prog-closures": "as prog, with closure-heavy random programs and parametrised closure scenarios (counters, sibling sharing, per-iteration capture, capture of captures, same card position in two modules, shadowing)",
     "module": "edit histories on Module/Card (get/insert/remove/replace/swap/walk, child API) vs an independent owned-tree model, compared by card id after every edit",
@@ -121,5 +123,35 @@ CHECKS = {
         "targets": {"quick": {"feat:closure-created-in-callee": 5000, "feat:upvalue-read": 20000, "feat:upvalue-write": 5000, "scenario:same-card-position-in-two-modules": 300, "scenario:per-iteration-capture": 300, "scenario:shared-siblings": 300},
                     "thorough": {"feat:closure-created-in-callee": 200000, "feat:upvalue-read": 1000000, "feat:upvalue-write": 200000}},
         "assumptions": ["reference semantics decisions of DESIGN.md appendix A"],
+    },
+    "C04": {
+        "level": "exploration",
+        "level_text": "Held on the sampled inputs only: (A) arbitrary, not well-scoped modules (random card trees of all 43 kinds, odd/empty/reserved names, wrong arities, junk imports, sub-module trees up to and over the recursion limit, 255+ locals, up to 80 globals, 250 upvalues, 400 functions, 3000-card bodies, expression/statement nesting to depth 120) optionally round-tripped through the real JSON and YAML loaders, then compiled; (B) well-scoped hostile programs (self-referencing tables compared/hashed/printed, unbounded recursion incl. through host re-entry, reserved-hash keys, allocation loops, wrong-type operands of every card, failing and missing natives, library calls on odd inputs, random ill-typed programs) run with value/call stack sizes 1..256, memory limits 64 B..16 MiB, budgets 0..100000, collections on or off, then cleared and run again. Oracles: catch_unwind (panic location), worker exit status/signal (abort, native stack overflow), stall watchdog with isolated re-run.",
+        "level_note": "Trusted: process-level monitors. A hang is only a violation when the single case re-run alone still does not finish within 60 s (comparable cases take milliseconds). dev profile (debug assertions and overflow checks on) in quick, dev + release in thorough.",
+        "technique": "runtime monitoring: crash/panic/abort/stack-overflow/hang monitors around isolated workers driven by hostile generated inputs",
+        "rule": "seeded hostile inputs; distinct by JSON hash; every completed case is non-trivial (it exercised compile and, for run cases, the VM under the stated limits)",
+        "hang_is_violation": True,
+        "engines": [
+            {"engine": "total", "profile": "dev", "cases": {"quick": 6000, "thorough": 60000}, "primary": True, "max_restarts": 200},
+            {"engine": "total", "profile": "release", "cases": {"quick": 0, "thorough": 40000}, "primary": False, "max_restarts": 200},
+        ],
+        "hard_floor": {"evaluations": 100, "counters": {"compile:.*": 100, "run:.*": 100}},
+        "targets": {"quick": {"compile:Err:.*": 1000, "compile:Ok": 1000, "run:Err:.*": 1000, "loaded:json": 500, "loaded:yaml": 500},
+                    "thorough": {"compile:Err:.*": 50000, "compile:Ok": 50000, "run:Err:.*": 50000}},
+        "assumptions": ["the input domain of compile is whatever the serde JSON/YAML loaders admit", "host functions terminate"],
+    },
+    "C08": {
+        "level": "exploration",
+        "level_text": "Held on the sampled module trees only: trees of depth 0-4 (and at/over the recursion limit) with 0-4 functions per module drawn from a 4-name pool (so the same name exists in several modules, and as module and function name), import lists mixing function, module and super. imports (valid, dangling, dot-less, ambiguous), call sites of every form (absolute, relative, via function import, via module import, junk) as static calls and as function values called dynamically. Every function logs a unique tag and all its parameters, callers log a local before/after the call and the returned value, so the host-call log shows which body ran, with which arguments, and that caller locals survived. A reference resolver (4 documented steps) decides accept/reject and the reference interpreter decides the expected log.",
+        "level_note": "Trusted: the reference resolver (refsem.rs resolve_name) and the list of rejection rules in e_resolve.rs. Modules where an import path designates different things when read as absolute vs relative are not judged. For several simultaneous faults any of the corresponding error kinds is accepted.",
+        "technique": "runtime monitoring: tagged function bodies + host-call log compared with a reference resolver / reference interpreter over generated module trees",
+        "rule": "seeded module trees; distinct by JSON hash; non-trivial when accepted and >= 3 host calls were compared, or rejected with an expected error kind",
+        "engines": [
+            {"engine": "resolve", "profile": "dev", "cases": {"quick": 3000, "thorough": 80000}, "primary": True},
+        ],
+        "hard_floor": {"evaluations": 100, "counters": {"bodies_run": 1000}},
+        "targets": {"quick": {"site:absolute": 2000, "site:relative": 2000, "site:function-import": 500, "site:module-import": 200, "rejected:.*": 2000},
+                    "thorough": {"site:function-import": 20000, "site:module-import": 10000, "rejected:.*": 100000}},
+        "assumptions": ["resolution order: absolute path, caller module, function imports, module-prefix imports (super. walks up)"],
     },
 }
